@@ -477,6 +477,9 @@ impl World {
             } else {
                 self.ds[d].spin_run = 0;
             }
+            if self.trace && std::env::var("VERIF_TRACE_PARK").is_ok() {
+                println!("      park d{} it={} at +{} timeout={:?} point={:?}", d, park.iteration, park.parked_at - T0, park.timeout_ms, park.point);
+            }
             self.ds[d].park = park;
         } else {
             self.ds[d].next_wake = None;
